@@ -297,7 +297,12 @@ type connHost struct {
 func (c *controlConn) setupConn(conn *Conn) error {
 	// we need up-to-date host info for the filterHost call below
 	iter := conn.querySystemLocal(context.TODO())
-	host, err := c.session.hostInfoFromIter(iter, conn.host.connectAddress, conn.conn.RemoteAddr().(*net.TCPAddr).Port)
+	// the port that was dialled; a HostDialer's connection need not be a TCP connection
+	port := conn.host.Port()
+	if tcp, ok := conn.conn.RemoteAddr().(*net.TCPAddr); ok {
+		port = tcp.Port
+	}
+	host, err := c.session.hostInfoFromIter(iter, conn.host.connectAddress, port)
 	if err != nil {
 		return err
 	}
